@@ -108,6 +108,7 @@ R07.6 the selection options (all, include/exclude regexes, exclude-subpkg-regex,
 	ruleR071(c, r)
 	ruleR072(c, r)
 	ruleR073(c, r)
+	ruleNoSharedInterfacesMap(c, r, "R07.3")
 	ruleR075(c, r, "R07.5")
 	ruleExcludeSubpkg(c, r, "R07.5")
 }
@@ -1765,4 +1766,70 @@ func pkgUnexportedHas(p *packages.Package, g *ast.FuncDecl) bool {
 		}
 	}
 	return false
+}
+
+// ruleNoSharedInterfacesMap (round 7): a package's `interfaces` map is its own. If any code stores into an
+// Interfaces map (beyond the loops of the Initialize functions that complete the decoded entries in place), then
+// no Interfaces field may be given a map that other packages can hold as well (a package-level variable): what
+// is stored for one package would be "listed" in every package sharing the map. Two conditions, each harmless
+// alone; the rule fires only when both hold.
+func ruleNoSharedInterfacesMap(c *Ctx, r *Repo, rule string) {
+	var stores, shared []string
+	n := 0
+	for _, pn := range []string{"config", "internal/cmd", "internal"} {
+		p := r.Pkg(pn)
+		if p == nil {
+			continue
+		}
+		info := p.TypesInfo
+		isIfaces := func(e ast.Expr) bool {
+			se, ok := ast.Unparen(e).(*ast.SelectorExpr)
+			if !ok || se.Sel.Name != "Interfaces" {
+				return false
+			}
+			_, isMap := info.TypeOf(se).Underlying().(*types.Map)
+			return isMap
+		}
+		pkgLevel := func(e ast.Expr) bool {
+			id, ok := ast.Unparen(e).(*ast.Ident)
+			if !ok {
+				return false
+			}
+			v, ok := info.Uses[id].(*types.Var)
+			return ok && v.Parent() == p.Types.Scope()
+		}
+		for _, fd := range pkgFuncDecls(p) {
+			inInit := pn == "config" && strings.HasSuffix(fd.Name.Name, "Initialize")
+			ast.Inspect(fd.Body, func(x ast.Node) bool {
+				switch y := x.(type) {
+				case *ast.AssignStmt:
+					for i, l := range y.Lhs {
+						if ie, ok := ast.Unparen(l).(*ast.IndexExpr); ok && isIfaces(ie.X) {
+							n++
+							// completing an entry under the key the loop is visiting is not a new entry
+							if !inInit {
+								stores = append(stores, funcKey(p, fd)+" ("+r.Pos(y.Pos())+")")
+							}
+						}
+						if isIfaces(l) && i < len(y.Rhs) {
+							n++
+							if pkgLevel(y.Rhs[i]) {
+								shared = append(shared, funcKey(p, fd)+" assigns "+types.ExprString(y.Rhs[i])+" ("+r.Pos(y.Pos())+")")
+							}
+						}
+					}
+				case *ast.KeyValueExpr:
+					if k, ok := y.Key.(*ast.Ident); ok && k.Name == "Interfaces" {
+						n++
+						if pkgLevel(y.Value) {
+							shared = append(shared, funcKey(p, fd)+" initialises the field with "+types.ExprString(y.Value)+" ("+r.Pos(y.Pos())+")")
+						}
+					}
+				}
+				return true
+			})
+		}
+	}
+	bad := len(stores) > 0 && len(shared) > 0
+	c.Check(n > 0 && !bad, rule, "Interfaces|own-map-per-package", "config/config.go", "no interfaces map that is stored into is shared between packages", fmt.Sprintf("an interfaces map shared between packages (%s) is stored into (%s): an interface resolved for one package becomes a listed interface, with that package's rendered config, in every package that shares the map", strings.Join(shared, "; "), strings.Join(stores, "; ")))
 }
